@@ -229,7 +229,33 @@ func runRound(c *sup.Child, b sup.Batch) {
 				return
 			}
 			wit := map[string]any{"conf": cf, "plain_len": len(plain)}
-			enc, _ := encryptfs.NewEncryptFS(base, cf.settings())
+			// the writing instance is built from caller-owned buffers with spare capacity; a second
+			// filespace is then built from the SAME secret buffer with another salt and the caller
+			// overwrites its buffers – settings are values: none of this may change the first key
+			var enc filesystem.Filespace
+			if idx%2 == 0 {
+				secretBuf := make([]byte, len(cf.Secret), len(cf.Secret)+64)
+				copy(secretBuf, cf.Secret)
+				saltBuf := make([]byte, len(cf.Salt), len(cf.Salt)+64)
+				copy(saltBuf, cf.Salt)
+				st := cf.settings()
+				st.Secret, st.Salt = secretBuf, saltBuf
+				enc, _ = encryptfs.NewEncryptFS(base, st)
+				decoyBase, _ := memfs.NewFilespace()
+				st2 := st
+				st2.Salt = []byte("another-salt-for-the-decoy-filespace")
+				decoy, _ := encryptfs.NewEncryptFS(decoyBase, st2)
+				decoy.WriteFile("x", []byte("decoy"), 0644)
+				for i := range secretBuf {
+					secretBuf[i] = 0
+				}
+				for i := range saltBuf {
+					saltBuf[i] ^= 0xFF
+				}
+				r.AddObs("settings_buffers_reused_and_wiped", 1)
+			} else {
+				enc, _ = encryptfs.NewEncryptFS(base, cf.settings())
+			}
 			enc.MkdirAll("d", 0777)
 			if err := writeVia(enc, cf.WriteVia, "d/file", plain, rng); err != nil {
 				r.Violate("write-failed", fmt.Sprintf("writing %d bytes via %s failed: %v", len(plain), cf.WriteVia, err), wit)
